@@ -176,6 +176,26 @@ def check_c03_nodes(prop, tier, replay):
                                "store stack lie in between (nhsim pipe scenarios, Pebble and Tan)"])
 
 
+def check_c03_staleview(prop, tier, replay):
+    """third engine of C03: a follower that is brought up to date by a snapshot holding two membership changes must
+    not be electable with the membership it knew before (its snapshot worker is held between the recovery and
+    RestoreRemotes by the verif gate of internal/rsm while the shard splits)"""
+    n, tr = (1, 3) if tier == "quick" else (4, 6)
+    batches = [{"first": k * tr, "traces": tr, "mode": "staleview", "dur": 0, "rounds": 0,
+                "store": "tan" if k % 2 == 1 else None} for k in range(n)]
+    return tv_run(prop, tier, replay, harness_dirs=HARNESS, pkg=".", test="TestVerifNhsim",
+                  trace_module="NodeSafetyTrace", tag="NS-REPORT", count_tag="NS-COUNT",
+                  batches=batches, env_of=_snap_env, mc=(),
+                  level="model_checking", stats_tag="NHSTATS", panic_ok=True, max_workers=4,
+                  build_name="nhsim", merge_into_existing=True,
+                  what="two replicas of a real NodeHost cluster were reported leader for the same term (a replica was "
+                       "elected with the membership it knew before the snapshot it had just recovered from)",
+                  sig_of=lambda op, f: "C03:%s" % op,
+                  assumptions=["directed schedule on real NodeHosts: the snapshot worker of the lagging replica is held at "
+                               "the verif gate in rsm.StateMachine.Recover for as long as the scenario needs (a legal "
+                               "schedule: nothing bounds the time between two statements of a goroutine)"])
+
+
 def check_c07_nodes(prop, tier, replay):
     """third engine of C07: membership requests through the public API of real NodeHosts"""
     n, tr, rounds = (8, 3, 14) if tier == "quick" else (24, 10, 20)
